@@ -443,6 +443,11 @@ static var Array_Iter_Init(var self) {
 }
 
 static var Array_Iter_Next(var self, var curr) {
+#if CELLO_NULL_CHECK == 1
+  if (curr is NULL) {
+    return throw(ValueError, "Received NULL as iteration position");
+  }
+#endif
   struct Array* a = self;
   if (curr >= Array_Item(a, a->nitems-1)) {
     return Terminal;
@@ -458,6 +463,11 @@ static var Array_Iter_Last(var self) {
 }
 
 static var Array_Iter_Prev(var self, var curr) {
+#if CELLO_NULL_CHECK == 1
+  if (curr is NULL) {
+    return throw(ValueError, "Received NULL as iteration position");
+  }
+#endif
   struct Array* a = self;
   if (curr <= Array_Item(a, 0)) {
     return Terminal;
